@@ -68,6 +68,8 @@ type rec struct {
 
 type scnKey struct{}
 
+const mmBoundary = "verif"
+
 var (
 	recs    sync.Map // id -> *rec
 	active  atomic.Int64
@@ -196,7 +198,7 @@ func gqlServer(kind string, ns int64) http.Handler {
 	case "sse":
 		srv.AddTransport(transport.SSE{KeepAlivePingInterval: time.Duration(ns)})
 	case "mm":
-		srv.AddTransport(transport.MultipartMixed{Boundary: "verif", DeliveryTimeout: time.Duration(ns)})
+		srv.AddTransport(transport.MultipartMixed{Boundary: mmBoundary, DeliveryTimeout: time.Duration(ns)})
 	}
 	h, _ := servers.LoadOrStore(key, http.Handler(srv))
 	return h.(http.Handler)
